@@ -27,7 +27,7 @@ RULE = ('case = (data class, first computation | forced recomputation over an ex
         'reference; zero runs if has_data was true, exactly one run of the task otherwise); second request; for failed directory tasks <key>_error '
         'holds what was written and (first computation) no <key> exists; a failed ContinuesData run keeps <key>_tmp for continuation. '
         'non-trivial = every enumerated fault point; distinct = (data class, mode, fault kind, index)')
-REQUIRED = ['crash_after_rename_points', 'recorded_executions', 'crash_points', 'torn_writes', 'raise_points', 'post_fault_checks', 'recovered_by_recompute', 'complete_result_found',
+REQUIRED = ['strace_crosschecks', 'crash_after_rename_points', 'recorded_executions', 'crash_points', 'torn_writes', 'raise_points', 'post_fault_checks', 'recovered_by_recompute', 'complete_result_found',
             'forced_mode_executions', 'error_dirs_checked', 'continues_tmp_checked']
 ASSUMPTIONS = ['crash model: process death between audited file operations and torn sequential writes; no power-loss / page-cache reordering',
                'H5Data (native I/O invisible to the audit hook) and FigureData are not exercised',
@@ -289,9 +289,79 @@ def enumerate_faults(kind, mode, variant, rng, res: CaseResult):
         res.sample = {'kind': kind, 'mode': mode, 'events': events[:12]}
 
 
+STRACE_RE = None
+
+
+def strace_crosscheck(kind, variant, rng, res: CaseResult):
+    """thorough tier: the set of data-dir paths mutated according to strace must equal the set seen by the audit hook
+    (guards against a blind spot of the failpoint mechanism, e.g. a native writer)"""
+    import json
+    import re
+    import subprocess
+    import sys
+    import tempfile
+    spec, root = make_spec(kind, variant, rng)
+    ref = Ref(spec, root)
+    slug = next(n for n in ref.tasks if n.endswith('producer'))
+    with Lab(spec) as lab:
+        d = lab.root / 'st'
+        sess = lab.sess([{'op': 'build', 'chain': 'c', 'root': root}, {'op': 'value', 'chain': 'c', 'task': slug}], data_dir=d)
+        inp, outp, stp = lab.root / 'sess.json', lab.root / 'sess.out', lab.root / 'strace.out'
+        inp.write_text(json.dumps(sess))
+        cmd = ['strace', '-f', '-qq', '-e', 'trace=openat,open,creat,rename,renameat,renameat2,unlink,unlinkat,mkdir,mkdirat,rmdir,symlink,symlinkat,link,linkat,truncate',
+               '-o', str(stp), sys.executable, '-m', 'tc_verif.lab.worker', str(inp), str(outp)]
+        try:
+            r = subprocess.run(cmd, capture_output=True, text=True, timeout=300)
+        except Exception as e:
+            res.inconclusive.append(f'strace run failed: {e}')
+            return
+        if not outp.exists():
+            res.inconclusive.append(f'strace session produced no output: {r.stderr[-300:]}')
+            return
+        steps = json.loads(outp.read_text())
+        if isinstance(steps, dict) or not steps[-1]['ok']:
+            res.inconclusive.append(f'strace session failed: {str(steps)[:300]}')
+            return
+        audit_paths = set()
+        for st in steps:
+            for ev, p in st['fs']:
+                if ev == 'open_r':
+                    continue
+                for part in p.split(' -> '):
+                    audit_paths.add(part)
+        dd = str(d.resolve())
+        strace_paths = set()
+        for line in stp.read_text(errors='replace').splitlines():
+            if ' = -1 ' in line and 'EEXIST' not in line:
+                continue
+            m = re.search(r'(openat|open|creat|rename|renameat2?|unlink|unlinkat|mkdir|mkdirat|rmdir|symlink|symlinkat|link|linkat|truncate)\((.*)\)\s+=', line)
+            if not m:
+                continue
+            call, args = m.group(1), m.group(2)
+            if call in ('openat', 'open') and not re.search(r'O_WRONLY|O_RDWR|O_CREAT|O_TRUNC|O_APPEND', args):
+                continue
+            for q in re.findall(r'"((?:[^"\\]|\\.)*)"', args):
+                if q.startswith(dd + '/'):
+                    rel = q[len(dd) + 1:]
+                    if not rel.endswith('.lock'):
+                        strace_paths.add(rel)
+        # dir_fd-relative syscalls inside rmtree show bare names in strace: compare on the paths strace can attribute
+        res.count('strace_crosschecks')
+        res.count('strace_paths', len(strace_paths))
+        missing = {p for p in strace_paths if p not in audit_paths and not any(a == p or a.startswith(p + '/') or p.startswith(a + '/') for a in audit_paths)}
+        if missing:
+            res.violate(f'{kind}: strace shows mutations of data-dir paths that the audit hook (the failpoint mechanism) never saw: {sorted(missing)[:6]}',
+                        witness={'kind': kind, 'variant': variant}, facts={'tag': 'audit_blind_spot'})
+        res.nt(jhash([kind, variant, 'strace']))
+        res.sample = {'kind': kind, 'strace_paths': sorted(strace_paths)[:8]}
+
+
 def run_case(case) -> CaseResult:
     res = CaseResult()
     rng = random.Random(case['seed'])
+    if case.get('strace'):
+        strace_crosscheck(case['kind'], case['variant'], rng, res)
+        return res
     enumerate_faults(case['kind'], case['mode'], case['variant'], rng, res)
     vc = res.extra.setdefault('violation_classes', {})
     for v in res.violations:
@@ -308,3 +378,6 @@ def cases(tier, seed):
         for kind in KINDS:
             for mode in ('first', 'forced'):
                 yield {'kind': kind, 'mode': mode, 'variant': v, 'seed': rng.randrange(1 << 30)}
+    # audit hook vs strace (one per data class; the quick tier runs three of them)
+    for kind in (KINDS if tier == 'thorough' else ['json_dict', 'numpy', 'dir']):
+        yield {'strace': True, 'kind': kind, 'variant': 1, 'seed': rng.randrange(1 << 30)}
